@@ -153,14 +153,16 @@ func (w *World) keyFor(sa *SA, role string, obj string, spy bool) (*security.IKE
 }
 
 type sendCtx struct {
-	w    *World
-	s    *Step
-	sa   *SA
-	msg  *message.IKEMessage
-	key  *security.IKESAKey
-	out  []byte
-	res  *callResult
-	orig message.IKEPayloadContainer // payload objects as built (kept by the harness)
+	w        *World
+	s        *Step
+	sa       *SA
+	msg      *message.IKEMessage
+	key      *security.IKESAKey
+	out      []byte
+	res      *callResult
+	orig     message.IKEPayloadContainer // payload objects as built (kept by the harness)
+	retried  bool
+	firstErr error
 }
 
 var sendHooks = map[string]func(c *sendCtx){}
@@ -193,6 +195,13 @@ func opSend(w *World, s *Step) (string, string) {
 	c.out, c.res = protect(msg, c.key, s.From, s.Rand)
 	if c.res.RandSt.fired {
 		w.stats.inc("fault_rand_failure_fired")
+		if s.Retry && c.res.class() == "err" {
+			// the sender retries on the same message object once the source is healthy again
+			w.stats.inc("fault_rand_failure_then_retry_same_message")
+			c.firstErr = c.res.Err
+			c.out, c.res = protect(msg, c.key, s.From, &RandScript{Seed: s.Rand.Seed ^ 0x7e7e})
+			c.retried = true
+		}
 	}
 	if s.Rand != nil && s.Rand.Chunk > 0 && c.res.RandSt.calls > 0 {
 		w.stats.inc("fault_rand_short_reads")
@@ -305,7 +314,7 @@ func opDeliver(w *World, s *Step) (string, string) {
 	if w.prop == "C18" {
 		before = clone(c.buf[:cap(c.buf)])
 	}
-	c.msg, c.res = unprotect(c.buf, c.key, c.toRole, rx.PreHdr)
+	c.msg, c.res = unprotect(c.buf, c.key, c.toRole, rx.PreHdr, rx.Hdr28)
 	if c.sa != nil {
 		c.res.Spy = c.sa.Log.Load()
 	}
@@ -324,7 +333,7 @@ func opDeliver(w *World, s *Step) (string, string) {
 		if k2, err := w.keyFor(c.sa, c.toRole, "twin", w.prop == "C02"); err == nil {
 			c.key = k2
 			c.sa.Log.Store(&spyLog{})
-			c.msg, c.res = unprotect(c.buf, c.key, c.toRole, rx.PreHdr)
+			c.msg, c.res = unprotect(c.buf, c.key, c.toRole, rx.PreHdr, rx.Hdr28)
 			c.res.Spy = c.sa.Log.Load()
 			w.stats.inc("deliver_" + c.res.class())
 			if h := deliverHooks[w.prop]; h != nil {
